@@ -230,6 +230,11 @@ def symbolic_for(ex, st, stmt, it):
             if seq is not None:
                 head.assume(ops._member(elem, seq))
                 ex.component(head, seq, elem)
+                et = entry.elemtypes.get(seq.get_id())
+                if et is not None:
+                    from . import classes as C_
+                    head.assume(z3.And(V.is_obj(elem), Val.ref(elem) >= 0, C_.subclass(C_.cls_of(Val.ref(elem)), et)))
+                    head.settype(elem, et)
             next_done = None
         if inv is not None:
             from . import solve as _solve
